@@ -77,7 +77,7 @@ def scenario(rng, reactive=False, crash=True):
         crash_at = rng.randint(0, n)
         crashed = rng.sample(names, rng.randint(1, len(names) - 1))
     return {'names': names, 'phens': phens, 'cache': rng.choice((0, 1000)), 'stream': stream, 'assign': assign,
-            'crash_at': crash_at, 'crashed': crashed}
+            'crash_at': crash_at, 'crashed': crashed, 'made': rng.choice((None, None, 'dup', 'uniq'))}
 
 
 def run_one(sc):
@@ -98,9 +98,20 @@ def run_one(sc):
         if tgt not in alive:
             tgt = alive[k % len(alive)]
         try:
-            c.input(tgt, d)
-            c.sync()
-            single.input(d)
+            # `made`: the data arrive as ready-made events (the receiver passes those through unchanged) whose identifiers
+            # and timestamps the SOURCES chose: identifiers unique per source only (so two different events may share
+            # one), clocks out of step.  Cluster and single engine get equal events (distinct objects).
+            if sc.get('made'):
+                from bobocep.cep.event import BoboEventSimple
+                mk = lambda: BoboEventSimple(event_id='x%d' % (k % 3 if sc['made'] == 'dup' else k),     # noqa
+                                             timestamp=100 + (k * 7919) % 7, data=d)
+                c.input(tgt, mk())
+                c.sync()
+                single.input(mk())
+            else:
+                c.input(tgt, d)
+                c.sync()
+                single.input(d)
         except Exception as e:
             bad = ('component-raised', f"{e.__class__.__name__}: {e}", k)
             break
@@ -173,7 +184,8 @@ def run(ctx: Ctx) -> Result:
                 for crash_at in [None] + list(range(len(st) + 1)):
                     for crashed in ([[]] if crash_at is None else [['A'], ['B']]):
                         scs.append({'names': ['A', 'B'], 'phens': LOOPY_INERT if st[1] == 1 else gc.CONFLICT, 'cache': 1000,
-                                    'stream': st, 'assign': list(assign), 'crash_at': crash_at, 'crashed': crashed})
+                                    'stream': st, 'assign': list(assign), 'crash_at': crash_at, 'crashed': crashed,
+                                    'made': (None, 'dup', None, 'uniq')[(len(scs)) % 4]})
         # three instances without finished-run memory: one instance processes the whole stream, another one is lost at
         # every point (its backlog grows on the processing instance while the third one keeps being served)
         for proc in 'ABC':
